@@ -9,9 +9,26 @@ limits.  After *every* step, on *every* context: all modelled globals read
 back (get and eval), never-defined names are undefined, built-in mutations are
 visible only where made, and a probe battery answers as on a pristine context.
 Exhaustive for short histories, seeded random for long ones.
+
+Process-global state: the host's process-wide settings (recursion limit, ...) are compared after every step, and a
+depth probe (get/eval of globals nested 100/1500/3000 arrays deep, whose outcome class depends on the host recursion
+available to the engine) answers the same on an untouched witness context before a history, after every failing
+operation and at the end, and as the operation 'deep-probe' on the contexts of the history.
+
+Fresh objects: for ~200 creation expressions (literals, typed arrays of every kind and length 0/n and their .buffer,
+ArrayBuffers, arrays/objects made by built-ins, arguments, error objects made by constructors and by the engine,
+functions and their .prototype) what one context writes on the created object or on its constructor prototype is
+invisible on a second creation in the same context and on creations in another context, which belong to their own
+context's constructor.
 """
+import decimal
+import gc
 import itertools
+import locale
+import os
 import random
+import sys
+import threading
 
 from vf import core, engine, pool, vclock
 from checks.c11 import neq, show
@@ -47,7 +64,96 @@ REPEATABLE_FAILS = ["fail-syntax", "fail-throw", "fail-loop", "fail-recursion", 
 OPS = ["keep-regex", "fail-eval-nesting", "fail-native-depth", "fail-regex-loop", "def-var", "assign", "redeclare", "def-fn", "eval-def", "function-ctor-assign", "py-set", "mutate-builtin",
        "fail-syntax", "fail-throw", "fail-loop", "fail-recursion", "fail-callback", "fail-regex", "mutate-in-place"]
 
+# the random histories and the directed depth histories also use the depth probe (see _ask)
+OPS_RANDOM = OPS + ["deep-probe"]
+
 CONFIGS = [(None, None), (0.08, None), (None, 30000), (0.08, 30000)]  # T in virtual time: 80 clock reads (see _init_virtual)
+
+
+# ---- process-global state and operations that depend on it -------------------------------------
+# Nothing an eval does may outlive it outside its context.  (1) A snapshot of the host's process-wide settings is
+# compared after every step of a history.  (2) A per-worker *witness* context that no history ever touches holds
+# globals nested DEPTHS arrays deep; what get()/eval() answer for them (a value of that depth, or which error class)
+# depends on how much host recursion the engine has at its disposal, and must be the same at the start of every
+# history, after every failing operation and at the end.  (3) The operation 'deep-probe' asks the same question on
+# a context of the history itself: same answer as the witness gave before the history, wherever it stands.
+DEPTHS = (100, 1500, 3000)
+PROBE_DEPTH = 1500
+_W = {}
+
+
+def _settings():
+    return {
+        "sys.getrecursionlimit": sys.getrecursionlimit(),
+        "sys.get_int_max_str_digits": sys.get_int_max_str_digits() if hasattr(sys, "get_int_max_str_digits") else None,
+        "sys.getswitchinterval": sys.getswitchinterval(),
+        "gc.isenabled": gc.isenabled(),
+        "gc.get_threshold": list(gc.get_threshold()),
+        "decimal.getcontext().prec": decimal.getcontext().prec,
+        "decimal.getcontext().rounding": decimal.getcontext().rounding,
+        "locale": locale.setlocale(locale.LC_ALL, None),
+        "sys.gettrace": repr(sys.gettrace()),
+        "sys.getprofile": repr(sys.getprofile()),
+        "threading.active_count": threading.active_count(),
+        "os.getcwd": os.getcwd(),
+        "sys.path length": len(sys.path),
+    }
+
+
+def _restore_settings(s0):
+    """After a report: put back what can be put back, so that the other histories of this worker are judged alone."""
+    try:
+        sys.setrecursionlimit(s0["sys.getrecursionlimit"])
+        if s0["sys.get_int_max_str_digits"] is not None:
+            sys.set_int_max_str_digits(s0["sys.get_int_max_str_digits"])
+        sys.setswitchinterval(s0["sys.getswitchinterval"])
+        (gc.enable if s0["gc.isenabled"] else gc.disable)()
+        gc.set_threshold(*s0["gc.get_threshold"])
+        decimal.getcontext().prec = s0["decimal.getcontext().prec"]
+        decimal.getcontext().rounding = s0["decimal.getcontext().rounding"]
+    except Exception:
+        pass
+
+
+def _build_deep(name, depth):
+    return "var %s = []; for (var i = 0; i < %d; i++) { %s = [%s]; } 'built'" % (name, depth, name, name)
+
+
+def _depth_of(v):
+    n = 0
+    while isinstance(v, list) and v:
+        v = v[0]
+        n += 1
+    return n
+
+
+def _ask(ctx, names):
+    """Outcome classes of get(name) and eval(name) for deeply nested globals.  Always called from the body of
+    run_history, i.e. at one host stack depth."""
+    out = []
+    for n in names:
+        for how in ("get", "eval"):
+            try:
+                with pool.cpu_alarm(30):
+                    v = ctx.get(n) if how == "get" else ctx.eval(n)
+                out.append([n, how, "value of depth %d" % _depth_of(v)])
+            except pool.HarnessTimeout:
+                raise
+            except Exception as ex:
+                info = engine.exc_info(ex)
+                out.append([n, how, "%s %s" % (info["cls"], info["name"] if info["family"] else "(host exception)")])
+    return out
+
+
+def _witness(m):
+    if "ctx" not in _W:
+        c = m.Context()
+        for d in DEPTHS:
+            with pool.cpu_alarm(60):
+                c.eval(_build_deep("deep%d" % d, d))
+        _W["ctx"] = c
+        _W["settings"] = _settings()
+    return _W["ctx"]
 
 
 def run_history(task):
@@ -58,7 +164,16 @@ def run_history(task):
     ctxs = [m.Context(time_limit=CONFIGS[c][0], memory_limit=CONFIGS[c][1]) for c in cfgs]
     models = [dict() for _ in ctxs]       # name -> ("val", v) | ("fn", k) | ("atleast", n)
     bmods = [dict() for _ in ctxs]        # builtin read expression -> value
+    hasdeep = [False for _ in ctxs]
     trace = []
+    W = _witness(m)
+    WN = ["deep%d" % d for d in DEPTHS]
+    s0 = _settings()
+    a0 = _ask(W, WN)
+    if _W.setdefault("A0", a0) != a0 or _W["settings"] != s0:
+        # an earlier history of this worker left something behind that its own checks did not see
+        return {"what": "witness context or host settings differ from the worker's first history", "trace": ["<pristine>"],
+                "expected": [_W["A0"], _W["settings"]], "actual": [a0, s0]}
 
     def ev(i, src):
         with pool.cpu_alarm(30):
@@ -186,6 +301,18 @@ def run_history(task):
                 src = "var %s = %s; [1, 2].forEach(function(x){ var o = { get p(){ return null.x; } }; return o.p; });" % (name, lsrc)
                 models[ci][name] = ("val", lval)
                 expect_fail = True
+            elif op == "deep-probe":
+                if not hasdeep[ci]:
+                    with pool.cpu_alarm(60):
+                        built = ctxs[ci].eval(_build_deep("deepq", PROBE_DEPTH))
+                    if built != "built":
+                        return {"ctx": ci, "what": "building the deep global failed", "trace": trace[-6:], "actual": show(built)}
+                    hasdeep[ci] = True
+                trace.append("ctx%d: deep-probe get(deepq), eval('deepq')" % ci)
+                got = [o[1:] for o in _ask(ctxs[ci], ["deepq"])]
+                exp = [o[1:] for o in a0 if o[0] == "deep%d" % PROBE_DEPTH]
+                if got != exp:
+                    return {"ctx": ci, "what": "depth probe answers differently than on an untouched context", "trace": trace[-6:], "after": op, "expected": exp, "actual": got}
             elif op == "keep-regex":
                 src = "var keptRe = /(a+)+b/;"
             elif op == "fail-eval-nesting":
@@ -222,6 +349,14 @@ def run_history(task):
                         return {"ctx": ci, "what": "host exception", "trace": trace[-6:], "actual": info}
                     if isinstance(expect_fail, str) and info["cls"] != expect_fail:
                         return {"ctx": ci, "what": "wrong limit error", "trace": trace[-6:], "expected": expect_fail, "actual": info["cls"]}
+            s1 = _settings()
+            if s1 != s0:
+                k = sorted(k for k in s0 if s0[k] != s1[k])[0]
+                return {"ctx": ci, "what": "process-global setting changed: " + k, "trace": trace[-6:], "after": op, "expected": s0[k], "actual": s1[k]}
+            if expect_fail or (ci, op, ni, li) == steps[-1]:
+                a1 = _ask(W, WN)
+                if a1 != a0:
+                    return {"ctx": ci, "what": "depth probe on an untouched context changed", "trace": trace[-6:], "after": op, "expected": a0, "actual": a1}
             stepno = len(trace)
             if len(steps) < 50 or stepno % 10 == 0 or (ci, op, ni, li) == steps[-1]:
                 # the whole probe battery after a failing eval and at the end, a light one otherwise
@@ -234,7 +369,146 @@ def run_history(task):
         return {"what": "hang in observation", "trace": trace[-6:]}
     except Exception as ex:
         return {"what": "observation raised", "trace": trace[-6:], "actual": engine.exc_info(ex)}
+    finally:
+        if _settings() != s0:
+            _restore_settings(s0)
     return None
+
+# ---- objects the engine creates are fresh per context and per creation ------------------------------
+# (creation expression, constructor it must be an instance of in the creating context or None,
+#  True if its prototype is exactly that constructor's prototype)
+TYPED = ["Int8Array", "Uint8Array", "Uint8ClampedArray", "Int16Array", "Uint16Array", "Int32Array", "Uint32Array", "Float32Array", "Float64Array"]
+_CAUGHT = "(function(){ try { %s; } catch (e) { return e; } })()"
+FRESH = [
+    ("[]", "Array", True), ("[1, 2]", "Array", True), ("({})", "Object", True), ("({a: 1})", "Object", True), ("/a/", "RegExp", True), ("new RegExp('a', 'g')", "RegExp", True),
+    ("new ArrayBuffer(0)", "ArrayBuffer", True), ("new ArrayBuffer(8)", "ArrayBuffer", True),
+    ("''.split('')", "Array", True), ("'a,b'.split(',')", "Array", True), ("JSON.parse('[]')", "Array", True), ("JSON.parse('{}')", "Object", True),
+    ("JSON.parse('{\"a\":[]}').a", "Array", True), ("Object.keys({})", "Array", True), ("Object.values({})", "Array", True), ("Object.entries({a: 1})", "Array", True),
+    ("Object.entries({a: 1})[0]", "Array", True), ("(function(){ return arguments; })()", "Object", True), ("(function(){ return arguments; })(1, 2)", "Object", True),
+    ("new Error('x')", "Error", True), ("Error('x')", "Error", True), ("new TypeError('x')", "TypeError", True), ("new RangeError('x')", "RangeError", True),
+    ("new SyntaxError('x')", "SyntaxError", True), ("new ReferenceError('x')", "ReferenceError", True), ("new EvalError('x')", "EvalError", True), ("new URIError('x')", "URIError", True),
+    ("new TypeError('x')", "Error", False),
+    (_CAUGHT % "null.x", "TypeError", True), (_CAUGHT % "undefinedName", "ReferenceError", True), (_CAUGHT % "eval('var = ;')", "SyntaxError", True),
+    (_CAUGHT % "new Array(-1)", "RangeError", True), (_CAUGHT % "JSON.parse('{')", "SyntaxError", True), (_CAUGHT % "new RegExp('(')", "SyntaxError", True),
+    (_CAUGHT % "(1).toFixed(1000)", "RangeError", True),
+    ("(function(){})", "Function", True), ("(function(){}).prototype", "Object", True), ("new Function('return 1')", "Function", True), ("new Function('return 1').prototype", "Object", True),
+    ("(function(){}).bind(null)", "Function", True), ("Object.create(null)", None, False), ("Object.create({})", "Object", False), ("new (function K(){})()", "Object", False),
+    ("new Object()", "Object", True), ("new Array()", "Array", True), ("Array(0)", "Array", True), ("new Array(2)", "Array", True), ("[].slice()", "Array", True), ("[1].concat()", "Array", True),
+    ("[].map(function(x){ return x; })", "Array", True), ("[].filter(function(x){ return x; })", "Array", True), ("/a/.exec('a')", "Array", True), ("'aa'.match(/a/g)", "Array", True),
+    ("Object.assign({}, {})", "Object", True), ("[].splice(0)", "Array", True), ("[3, 1].sort()", "Array", True), ("[1].reverse()", "Array", True),
+    ("Object.getOwnPropertyDescriptor({a: 1}, 'a')", "Object", True), ("'abc'.split('').reverse()", "Array", True),
+    ("new Uint8Array(2).subarray(0, 0)", "Uint8Array", True), ("new Uint8Array(2).subarray(0, 0).buffer", "ArrayBuffer", True), ("new Uint8Array(2).subarray(1).buffer", "ArrayBuffer", True),
+    ("new Uint8Array(new ArrayBuffer(0))", "Uint8Array", True), ("new Uint8Array(new ArrayBuffer(0)).buffer", "ArrayBuffer", True), ("new Int16Array(new ArrayBuffer(4), 2).buffer", "ArrayBuffer", True),
+]
+for _t in TYPED:
+    for _a in ("", "0", "2", "[]", "[1]", "new %s(0)" % _t, "new %s(1)" % _t, "new Uint8Array(0)"):
+        FRESH.append(("new %s(%s)" % (_t, _a), _t, True))
+        FRESH.append(("new %s(%s).buffer" % (_t, _a), "ArrayBuffer", True))
+# C08-function-object (known finding): functions are not objects of the engine's object model, Object.getPrototypeOf(f)
+# is null and f instanceof Function is false: for them only the freshness clauses are judged.
+FUNCTION_OBJECT = "C08-function-object: instanceof / prototype clauses not judged for function objects"
+
+
+def run_fresh(task):
+    """task = (config A, config B, (expr, ctor, exact), (pre, thr, swap)).
+    Context A writes a property on what the expression creates (pre: after B has created one of the kind; thr: in
+    an eval that then throws); a second creation in A and a creation in B must not show it, must be distinct
+    objects, must belong to the constructor of their own context; a property put on A's constructor prototype is
+    inherited in A and invisible in B; what B writes on its object does not reach A's."""
+    ca, cb, (e, C, exact), (pre, thr, swap) = task
+    m = engine.load()
+    if swap:
+        B = m.Context(time_limit=CONFIGS[cb][0], memory_limit=CONFIGS[cb][1])
+        A = m.Context(time_limit=CONFIGS[ca][0], memory_limit=CONFIGS[ca][1])
+    else:
+        A = m.Context(time_limit=CONFIGS[ca][0], memory_limit=CONFIGS[ca][1])
+        B = m.Context(time_limit=CONFIGS[cb][0], memory_limit=CONFIGS[cb][1])
+    isfn = C == "Function"
+    trace = []
+
+    def step(ctx, label, src, expected, what, fails=False):
+        trace.append("%s: %s" % (label, src))
+        try:
+            with pool.cpu_alarm(30):
+                r = ctx.eval(src)
+            if fails:
+                return {"what": "failing eval did not fail", "trace": trace[-4:]}
+        except pool.HarnessTimeout:
+            return {"what": "hang", "trace": trace[-4:]}
+        except Exception as ex:
+            info = engine.exc_info(ex)
+            if fails and info["family"]:
+                return None
+            return {"what": "creation or observation raises", "trace": trace[-4:], "actual": info}
+        if fails:
+            return None
+        for w, x, a in zip(what, expected, r if isinstance(r, list) else [r]):
+            if not neq(a, x):
+                return {"what": w, "trace": trace[-4:], "expected": x, "actual": show(a)}
+        return None
+
+    inst = "true" if (C is None or isfn) else "o instanceof %s" % C
+    proto = "true" if (not exact or isfn) else "Object.getPrototypeOf(o) === %s.prototype" % C
+    plan = []
+    if pre:
+        plan.append((B, "B", "var o0 = (%s); typeof o0.zzf" % e, ["undefined"], ["pristine creation has the property"]))
+    if thr:
+        plan.append((A, "A", "var o1 = (%s); o1.zzf = 'A1'; throw new Error('boom');" % e, None, None))
+    else:
+        plan.append((A, "A", "var o1 = (%s); o1.zzf = 'A1'; o1.zzf" % e, ["A1"], ["property written on the created object is lost"]))
+    plan.append((A, "A", "var o = (%s); var o2 = o; [o1.zzf, typeof o2.zzf, o1 !== o2, %s, %s]" % (e, inst, proto), ["A1", "undefined", True, True, True],
+                 ["property written on the created object is lost", "second creation in the same context shows the property of the first", "two creations are one object",
+                  "created object is not an instance of its context's constructor", "created object does not have its context's constructor prototype"]))
+    plan.append((B, "B", "var o = (%s); [typeof o.zzf, %s, %s]" % (e, inst, proto), ["undefined", True, True],
+                 ["creation in another context shows the property", "created object is not an instance of its context's constructor", "created object does not have its context's constructor prototype"]))
+    if pre:
+        plan.append((B, "B", "typeof o0.zzf", ["undefined"], ["object created earlier in another context shows the property"]))
+    if C is not None and not isfn:
+        plan.append((A, "A", "%s.prototype.zzp = 'AP'; [o1.zzp, (%s).zzp]" % (C, e), ["AP", "AP"], ["created object does not inherit from its context's constructor prototype"] * 2))
+        plan.append((B, "B", "[typeof o.zzp, typeof (%s).zzp, typeof %s.prototype.zzp]" % (e, C), ["undefined"] * 3,
+                     ["prototype property of another context is inherited", "prototype property of another context is inherited", "built-in prototype mutation leaked"]))
+    plan.append((B, "B", "o.zzf = 'B1'; o.zzf", ["B1"], ["property written on the created object is lost"]))
+    plan.append((A, "A", "[o1.zzf, typeof o2.zzf, typeof (%s).zzf]" % e, ["A1", "undefined", "undefined"],
+                 ["property overwritten from another context", "second creation in the same context shows the property of the first", "later creation shows the property"]))
+    for (ctx, label, src, expected, what) in plan:
+        bad = step(ctx, label, src, expected, what, fails=expected is None)
+        if bad:
+            return bad
+    return None
+
+
+def run_fresh_batch(tasks):
+    return [run_fresh(t) for t in tasks]
+
+
+def fresh_campaign(chk, quick):
+    rnd = random.Random(core.shard_seed(chk.seed, "C12", "fresh"))
+    tasks = []
+    for ent in FRESH:
+        for pre in (0, 1):
+            for thr in (0, 1):
+                for swap in ((rnd.randrange(2),) if quick else (0, 1)):
+                    for _ in range(1 if quick else 3):
+                        tasks.append((rnd.randrange(len(CONFIGS)), rnd.randrange(len(CONFIGS)), ent, (pre, thr, swap)))
+    batches = pool.chunks(tasks, 40)
+    res = pool.run(run_fresh_batch, batches, timeout=600, init=_init_virtual)
+    for b, rb in zip(batches, res):
+        if isinstance(rb, (pool.HANG, pool.CRASH)):
+            rs = pool.run(run_fresh_batch, [[t] for t in b], timeout=100, init=_init_virtual)
+            rb = [{"what": "HANG" if isinstance(r, pool.HANG) else "CRASH"} if isinstance(r, (pool.HANG, pool.CRASH)) else r[0] for r in rs]
+        for (ca, cb, ent, var), bad in zip(b, rb):
+            chk.count()
+            chk.classify("fresh objects: " + (ent[1] or "no constructor"))
+            chk.nontrivial(core.h16(["fresh", ent[0], ent[1], list(var)]))
+            if ent[1] == "Function":
+                chk.excluded[FUNCTION_OBJECT] += 1
+            case = {"kind": "fresh", "configs": [ca, cb], "entry": list(ent), "variant": list(var)}
+            if bad:
+                case["trace"] = bad.get("trace")
+                chk.violation("fresh|%s|%s" % (bad.get("what"), ent[1]), case, bad.get("expected"), {k: v for k, v in bad.items() if k not in ("trace", "expected")}, sub="fresh")
+            elif var == (1, 1, 0) or var == (1, 1, 1):
+                chk.sample({"creation": ent[0], "constructor": ent[1], "outcome": "fresh in both contexts and per creation"}, cls="fresh", per_class=4)
+    chk.extra["fresh_creation_expressions"] = len(FRESH)
 
 
 def run_histories(tasks):
@@ -255,6 +529,8 @@ def nontrivial_history(steps):
     for i, s in enumerate(steps):
         if s[1] == "mutate-builtin" and any(t[0] != s[0] for t in steps[i + 1:]):
             return True
+        if s[1] == "deep-probe" and any(t[1].startswith("fail") for t in steps[:i]):
+            return True
     return False
 
 
@@ -263,7 +539,11 @@ def main(chk):
         "histories over a %d-operation alphabet (definitions, Python set, built-in mutations, six kinds of failing eval) on 2-3 "
         "contexts with different limits, model-checked after every step on every context (globals via get and eval, undefined "
         "names, built-in isolation, 12-probe battery); non-trivial = a failing eval followed by >= 2 successful operations on the "
-        "same context, or a built-in mutation followed by operations on another context; distinct by history" % len(OPS)
+        "same context, or a built-in mutation followed by operations on another context, or a depth probe after a failing eval; "
+        "distinct by history.  After every step the host's process-wide settings are unchanged; the depth probe (get/eval of "
+        "globals nested 100/1500/3000 deep) answers the same on an untouched witness context after every failing eval.  "
+        "Fresh objects: %d creation expressions x {other context created one first} x {write inside a failing eval}: writes on the "
+        "object and on its constructor prototype stay on that object / in that context" % (len(OPS_RANDOM), len(FRESH))
     )
     chk.assumptions = ["time-limited contexts run under the virtual clock (T = 80 clock reads), so no outcome depends on machine load; the model of an interrupted counter loop is only monotone (>=)"]
     for path, rec in core.saved_replays("C12"):
@@ -272,6 +552,7 @@ def main(chk):
         if r["fails"]:
             chk.violation("saved-replay|" + path, rec.get("case"), r["expected"], r["actual"], sub="replay")
     quick = chk.tier == "quick"
+    fresh_campaign(chk, quick)
     tasks = []
     # exhaustive: all histories of length L over (context, op) with name/literal rotated
     L = 3
@@ -289,16 +570,21 @@ def main(chk):
             reps = 70 if op not in ("fail-loop", "fail-regex-loop") else 8
             steps = [(0, op, 0, 1)] * reps + [(0, "def-var", 1, 2), (1, "def-var", 2, 3)]
             tasks.append(((cfg, 0), steps))
+    # the depth probe before and after every kind of failing eval, on the same and on another context
+    for op in REPEATABLE_FAILS:
+        for cfgs in ((3, 0), (0, 3), (1, 2)):
+            for fc in (0, 1):
+                tasks.append((cfgs, [(0, "deep-probe", 0, 1), (fc, op, 1, 2), (0, "deep-probe", 0, 1), (1, "deep-probe", 0, 1), (fc, op, 2, 3), (0, "def-var", 0, 4), (1, "deep-probe", 0, 1)]))
     rnd = random.Random(core.shard_seed(chk.seed, "C12", "random"))
     for _ in range(400 if quick else 8000):
         k = rnd.choice([2, 3])
         cfgs = tuple(rnd.randrange(len(CONFIGS)) for _ in range(k))
         n = rnd.randint(8, 40)
-        steps = [(rnd.randrange(k), rnd.choice(OPS), rnd.randrange(3), rnd.randrange(len(LITS))) for _ in range(n)]
+        steps = [(rnd.randrange(k), rnd.choice(OPS_RANDOM), rnd.randrange(3), rnd.randrange(len(LITS))) for _ in range(n)]
         tasks.append((cfgs, steps))
     if not quick:
         for _ in range(20000):
-            steps = [(rnd.randrange(2), rnd.choice(OPS), rnd.randrange(3), rnd.randrange(len(LITS))) for _ in range(4)]
+            steps = [(rnd.randrange(2), rnd.choice(OPS_RANDOM), rnd.randrange(3), rnd.randrange(len(LITS))) for _ in range(4)]
             tasks.append(((3, 1), steps))
     chk.extra["exhaustive_histories_len3"] = exhaustive_n
     batches = pool.chunks(tasks, 40)
@@ -351,6 +637,12 @@ def _shrink_worker(arg):
 
 def replay(rec):
     case = rec["case"]
+    if case.get("kind") == "fresh":
+        ent = case["entry"]
+        bad = pool.run(run_fresh, [(case["configs"][0], case["configs"][1], (ent[0], ent[1], ent[2]), tuple(case["variant"]))], timeout=100, init=_init_virtual)[0]
+        if isinstance(bad, (pool.HANG, pool.CRASH)):
+            bad = {"what": repr(bad)}
+        return {"fails": bool(bad), "expected": (bad or {}).get("expected"), "actual": bad or "agrees"}
     bad = pool.run(run_history, [(tuple(case["configs"]), [tuple(s) for s in case["steps"]])], timeout=600, init=_init_virtual)[0]
     if isinstance(bad, (pool.HANG, pool.CRASH)):
         bad = {"what": repr(bad)}
